@@ -36,6 +36,9 @@ func runC05(c *Ctx) {
 	c05TransportBlocking(c)
 	c05CloseCancelsAll(c)
 	rootOnce(c)
+	// the multipart/mixed flush ticker is stopped on every exit: aggregator.Done is deferred (C12/terminal-once)
+	c12TerminalOnce(c)
+	locksReleased(c, pkgTransport, pkgGraphql, pkgExecutor, pkgHandler)
 }
 
 // ------------------------------------------------------------------------------------------------
